@@ -1,5 +1,6 @@
 import H2T.Lemmas.FitsBlock
 import H2T.Lemmas.MarksTree
+import H2T.Lemmas.MarkSafe
 
 /-! # C14 — every id with visible content yields one fragment marker at its content
 
@@ -14,7 +15,13 @@ when no prefixed sub-renderer is involved (`markers_exactly_once_flat`); the onl
 marker adds exactly one marker element to the pending word of the current block and nothing else; markers have no width (so they can never change wrapping or the text); the hard
 wrap keeps the markers of the word it splits (this is what the `fix:` commit "keep fragment markers when a word
 is hard-wrapped" repaired: before it the conservation lemma below was false); markers that reach the end of a
-block are handed over to the next line.  Exactly-once and position over whole documents are decided by
+block are handed over to the next line.  **Visible text protects the markers before it** (`Lemmas/MarkSafe`): the number of
+markers `into_lines` can drop is bounded by `ub` (markers in `pending_frags` unless the wrap buffer holds text, plus the
+markers of a pending word without text); text with a visible character takes `ub` to 0 and afterwards it grows by at most
+one per recorded marker — so in a table-free program `a ++ [text x] ++ b` every marker held after `a` is returned, at the
+front of the output's markers (`marker_before_visible_text_is_kept`, `flat_markers_before_text_are_kept`), and likewise
+inside a block quote, heading, list item or `dd` (`sub_markers_before_text_are_kept`).  Position relative to the first
+character and tables over whole documents are decided by
 correspondence and the search oracle; two situations in which a marker is lost or an id changes the layout are
 known findings. -/
 
@@ -127,5 +134,47 @@ example :
         ((b.addElement (.frag (strCh "x"))).forceFlush.addText .normal [] [] (strCh "t")).toOption.bind fun b2 =>
         b2.finish.toOption.map fun ls => ls.flatMap marks) = some [strCh "x"]) :=
   ⟨fun _ => Or.inl rfl, by decide +kernel⟩
+
+/-! ## visible text protects the markers before it -/
+
+/-- **a marker recorded before visible text is kept** (table-free trees, every decorator, width and option mix): if the
+    tree's program is `a ++ [text x] ++ b` and `x` holds a visible character, then everything the renderer holds after
+    running `a` is returned, as the first markers of the output -/
+theorem marker_before_visible_text_is_kept (cfg : Cfg) (d : Deco) (w : Nat) (tree : RNode) (ls : List RLine) (hn : noTable tree = true)
+    (a b : List Op) (x : List Ch) (hc : compile cfg d tree = a ++ [Op.text x] ++ b) (hk : hasInk x = true)
+    (h : renderTree cfg d w tree = .ok ls) :
+    ∃ ta, runOps SubR.widthMinus cfg d { cur := { width := w } } a = .ok ta ∧ ta.cur.marks <+: ls.flatMap rmarks :=
+  renderTree_ink_protects cfg d w tree ls hn a b x hc hk h
+
+/-- when `a` involves no sub-renderer these are exactly the markers `a` records: the ids of the enclosing paragraphs,
+    divs and inline elements up to the text -/
+theorem flat_markers_before_text_are_kept (cfg : Cfg) (d : Deco) (w : Nat) (tree : RNode) (ls : List RLine) (hn : noTable tree = true)
+    (a b : List Op) (x : List Ch) (hc : compile cfg d tree = a ++ [Op.text x] ++ b) (hk : hasInk x = true) (hfa : flatOps a = true)
+    (h : renderTree cfg d w tree = .ok ls) : opsFrags a <+: ls.flatMap rmarks := by
+  obtain ⟨ta, e1, e2⟩ := renderTree_ink_protects cfg d w tree ls hn a b x hc hk h
+  have htf : tableFreeOps a = true := by
+    have := (compile_frags cfg d tree hn).2
+    rw [hc, List.append_assoc, tableFreeOps_append] at this
+    simp only [Bool.and_eq_true] at this; exact this.1
+  obtain ⟨⟨kept, k1, _, k3⟩, _⟩ := runOps_marks SubR.widthMinus cfg d a _ ta htf (fresh_marks w []).2 e1
+  rw [k1, (fresh_marks w []).1, List.nil_append, k3 hfa] at e2
+  exact e2
+
+/-- the same inside a sub-renderer: what a block quote, heading, list item or `dd` hands to its parent starts with
+    everything its body held before the visible text -/
+theorem sub_markers_before_text_are_kept (cfg : Cfg) (d : Deco) (t t' : RS) (p m : Nat) (first rest : List Ch) (asBlock : Bool)
+    (a b : List Op) (x : List Ch) (htf : tableFreeOps (a ++ [Op.text x] ++ b) = true) (hm : t.cur.MOk) (hk : hasInk x = true)
+    (h : runOp SubR.widthMinus cfg d t (.sub p m first rest asBlock (a ++ [Op.text x] ++ b)) = .ok t') :
+    ∃ w ta kept, t.cur.widthMinus cfg p m = .ok w ∧
+      runOps SubR.widthMinus cfg d { links := t.links, cur := ({ width := w, annStack := t.cur.annStack } : SubR) } a = .ok ta ∧
+      t'.cur.marks = t.cur.marks ++ kept ∧ ta.cur.marks <+: kept :=
+  sub_ink_protects cfg d t t' p m first rest asBlock a b x htf hm hk h
+
+/-- instance: `<p id=n>x</p>` — the marker `n` is the first marker of the output whenever `x` has a visible character -/
+theorem paragraph_id_is_kept (cfg : Cfg) (d : Deco) (w : Nat) (n x : List Ch) (ls : List RLine) (hk : hasInk x = true)
+    (h : renderTree cfg d w (.box {} .block [.frag n, .text {} x]) = .ok ls) : [n] <+: ls.flatMap rmarks := by
+  have hc : compile cfg d (.box {} .block [.frag n, .text {} x]) = [Op.startBlock, Op.frag n] ++ [Op.text x] ++ [Op.endBlock] := by
+    simp [compile, compileList, styleOpen, styleClose]
+  exact flat_markers_before_text_are_kept cfg d w _ ls (by simp [noTable, noTableL]) _ _ x hc hk (by simp [flatOps, flatOp]) h
 
 end H2T.C14
